@@ -20,11 +20,13 @@ PLAN = dict(
     tiers=dict(
         quick=[det("rel", H, "cs-rel", 16, 320, 4, tso=True, time_cap=22),
                det("dbg", H, "cs-dbg", 16, 200, 4, tso=True, time_cap=16),
-               cmd("seq", RC, "plain", 2, ["15000"], link_tbb=False, ldflags=["-lrapidcheck"]),
+               cmd("seq", RC, "plain", 2, ["15000"], link_tbb=False, ldflags=["-lrapidcheck"], replay_tag="seq-"),
+               cmd("mock-runtime", "harness/c0506_mock_rc.cpp", "plain", 2, ["C05", "40000"], link_tbb=False, ldflags=["-lrapidcheck"], replay_tag="mock-"),
                tsan("C05", 8, 240)],
         thorough=[det("rel", H, "cs-rel", 16, 6000, 5, tso=True, time_cap=330),
                   det("dbg", H, "cs-dbg", 16, 3000, 5, tso=True, time_cap=200),
-                  cmd("seq", RC, "plain", 8, ["200000"], link_tbb=False, ldflags=["-lrapidcheck"]),
+                  cmd("seq", RC, "plain", 8, ["200000"], link_tbb=False, ldflags=["-lrapidcheck"], replay_tag="seq-"),
+                  cmd("mock-runtime", "harness/c0506_mock_rc.cpp", "plain", 8, ["C05", "400000"], link_tbb=False, ldflags=["-lrapidcheck"], replay_tag="mock-"),
                tsan("C05", 16, 600)],
     ),
 )
